@@ -836,10 +836,9 @@ class NodeFor:
                     if len(self.identifiers) == 1:
                         environment.put(self.identifiers[0], value)
                     else:
-                        if value.isList():
-                            vals = value.value
-                        elif value.isSet():
-                            vals = value.getSortedItems()
+                        vals = destructureValues(
+                            value, len(self.identifiers), self.pos
+                        )
                         for i in range(len(self.identifiers)):
                             environment.put(self.identifiers[i], vals[i])
 
@@ -871,10 +870,9 @@ class NodeFor:
                 if len(self.identifiers) == 1:
                     environment.put(self.identifiers[0], value)
                 else:
-                    if value.isList():
-                        vals = value.value
-                    elif value.isSet():
-                        vals = value.getSortedItems()
+                    vals = destructureValues(
+                        value, len(self.identifiers), self.pos
+                    )
                     for i in range(len(self.identifiers)):
                         environment.put(self.identifiers[i], vals[i])
                 result = self.block.evaluate(environment)
@@ -901,10 +899,9 @@ class NodeFor:
                 if len(self.identifiers) == 1:
                     environment.put(self.identifiers[0], value)
                 else:
-                    if value.isList():
-                        vals = value.value
-                    elif value.isSet():
-                        vals = value.getSortedItems()
+                    vals = destructureValues(
+                        value, len(self.identifiers), self.pos
+                    )
                     for i in range(len(self.identifiers)):
                         environment.put(self.identifiers[i], vals[i])
                 result = self.block.evaluate(environment)
@@ -940,10 +937,9 @@ class NodeFor:
                 if len(self.identifiers) == 1:
                     environment.put(self.identifiers[0], val)
                 else:
-                    if val.isList():
-                        vals = val.value
-                    elif val.isSet():
-                        vals = val.getSortedItems()
+                    vals = destructureValues(
+                        val, len(self.identifiers), self.pos
+                    )
                     for i in range(len(self.identifiers)):
                         environment.put(self.identifiers[i], vals[i])
                 result = self.block.evaluate(environment)
@@ -979,10 +975,9 @@ class NodeFor:
                 if len(self.identifiers) == 1:
                     environment.put(self.identifiers[0], val)
                 else:
-                    if val.isList():
-                        vals = val.value
-                    elif val.isSet():
-                        vals = val.getSortedItems()
+                    vals = destructureValues(
+                        val, len(self.identifiers), self.pos
+                    )
                     for i in range(len(self.identifiers)):
                         environment.put(self.identifiers[i], vals[i])
                 result = self.block.evaluate(environment)
